@@ -120,3 +120,16 @@ func (Bin) isNode()  {}
 func (Leaf) isNode() {}
 func (Inv) isNode()  {}
 func (Sym) isNode()  {}
+
+// Audit is analysed before Document, refers back to it, and is embedded there
+// with the opt-out: none of its fields may be filled inside a Document.
+type Audit struct {
+	Author   string
+	Revision int
+	History  []Document
+}
+
+type Document struct {
+	Audit `gomacro-data:"ignore"`
+	Title string
+}
